@@ -173,3 +173,12 @@ def run(res, facts, tier):
     _run_c01_prev_avt(res, facts, tier)
     from . import c01_avt
     c01_avt.run_rule(res, facts, tier)
+
+
+_run_c01_prev_vars = run
+
+
+def run(res, facts, tier):
+    _run_c01_prev_vars(res, facts, tier)
+    from . import c01_vars
+    c01_vars.run_rule(res, facts, tier)
